@@ -16,7 +16,7 @@ pub fn n_cases(ctx: &Ctx) -> u64 {
     let base = match (ctx.variant.as_str(), ctx.thorough()) {
         ("dbg", false) => 400,
         ("dbg", true) => 5000,
-        (_, false) => 4000,
+        (_, false) => 12000,
         (_, true) => 60_000,
     };
     STEER + ctx.scaled(base)
